@@ -23,6 +23,7 @@ import (
 	"regexp"
 	"sort"
 	"strings"
+	"sync"
 	"time"
 
 	"github.com/compose-spec/compose-go/v2/consts"
@@ -445,6 +446,40 @@ func c05MemberOf(out json.RawMessage, outs []json.RawMessage) bool {
 	return false
 }
 
+// c05Stats: which branches of the model the c05.apply stream reached (outcome classes of `applyExtendsOrd`, the
+// specification's classification of the document, the real outcome class) — flushed into the evidence's
+// distribution at the end of runC05 (judges run in the harness process).
+var (
+	c05StatsMu sync.Mutex
+	c05Stats   = map[string]int{}
+)
+
+func c05Stat(k string) {
+	c05StatsMu.Lock()
+	c05Stats[k]++
+	c05StatsMu.Unlock()
+}
+
+func c05OutClass(o json.RawMessage) string {
+	var m struct {
+		Ok    json.RawMessage `json:"ok"`
+		Err   *string         `json:"err"`
+		Panic *string         `json:"panic"`
+	}
+	if json.Unmarshal(o, &m) != nil {
+		return "?"
+	}
+	switch {
+	case m.Err != nil:
+		return "err:" + *m.Err
+	case m.Panic != nil:
+		return "panic:" + *m.Panic
+	case m.Ok != nil:
+		return "ok"
+	}
+	return "?"
+}
+
 func judgeC05Apply(args, real, drv json.RawMessage) *core.Verdict {
 	if c := core.Class(real); c == "fatal" || c == "hang" {
 		return core.CrashVerdict(real)
@@ -459,6 +494,13 @@ func judgeC05Apply(args, real, drv json.RawMessage) *core.Verdict {
 	}
 	if json.Unmarshal(drv, &d) != nil || len(d.Outs) == 0 {
 		return core.Disagree("malformed driver outcome: " + string(drv))
+	}
+	for _, o := range d.Outs {
+		c05Stat("apply/model-outcome/" + c05OutClass(o))
+	}
+	c05Stat("apply/real-outcome/" + c05OutClass(r.Out))
+	if len(d.Outs) > 1 {
+		c05Stat("apply/model-outcomes>1")
 	}
 	if len(r.Shared) > 0 {
 		return core.Fail("result-shares-structure:"+sharedKind(r.Shared[0]), "the resolved services are not a tree: "+strings.Join(r.Shared, "; "))
@@ -636,6 +678,16 @@ func c05CycleVerdict(args, realOut json.RawMessage, flat [][]json.RawMessage) *c
 			nOther++
 		}
 	}
+	switch {
+	case nCyc > 0 && nOther == 0:
+		c05Stat("apply/spec/cyclic-only")
+	case nCyc > 0:
+		c05Stat("apply/spec/cyclic+other-defect")
+	case nOther > 0:
+		c05Stat("apply/spec/other-defect")
+	default:
+		c05Stat("apply/spec/all-flat")
+	}
 	var ro struct {
 		Ok    json.RawMessage `json:"ok"`
 		Err   *string         `json:"err"`
@@ -643,6 +695,9 @@ func c05CycleVerdict(args, realOut json.RawMessage, flat [][]json.RawMessage) *c
 	}
 	if json.Unmarshal(realOut, &ro) != nil || ro.Panic != nil {
 		return nil
+	}
+	if ro.Err != nil && *ro.Err == "circular" {
+		c05Stat("apply/real-circular")
 	}
 	var a c05ApplyArgs
 	json.Unmarshal(args, &a)
